@@ -144,11 +144,12 @@ def rangeCommit (g h : G) (value a b : Int) (rnd : RangeRand) : Commitment G × 
 /-- `create_attest_pair(PK, value, a, b, bitspace)`.
     `none` models "no attestation comes out": for `mst < 0` the code raises (`sqrt` of a negative number), for
     `mst = 0` and `4 ≤ mst < 9` the `while not m4` loop never ends, for `0 < mst < 4` the modulus is 0
-    (ZeroDivisionError). -/
+    (ZeroDivisionError); for a format with `max ≤ 0` `EL.create` raises (known finding). -/
 def createAttestPair (g h : G) (value a b : Int) (rnd : RangeRand) : Option (RangePublic G × RangePriv) :=
   let mst := mstOf rnd.w value a b
   if mst ≤ 0 then none
   else if Nat.sqrt mst.toNat < 3 then none
+  else if b ≤ 0 then none      -- EL.create: `maxrange_w = 2 ^ (l + t) * b - 1` (XOR) is negative, secure_randint raises
   else
     let (com, pv) := rangeCommit o g h value a b rnd
     let raa := rnd.raa0 * rnd.raa0
